@@ -1,8 +1,17 @@
 #!/bin/sh
-# usage: fzrun.sh <binary> <target> <workdir> <artifact_prefix> <runs> <seed> <max_len>
+# usage: fzrun.sh <binary> <target> <workdir> <artifact_prefix> <runs> <seed> <max_len> [<msan binary>]
+# With an MSan binary, the corpus left by the fuzz run is replayed once under MemorySanitizer.
 # Generates the seed corpus for the target, then runs libFuzzer for a fixed number of runs.
-BIN="$1"; T="$2"; W="$3"; ART="$4"; RUNS="$5"; SEED="$6"; MAXLEN="$7"
+BIN="$1"; T="$2"; W="$3"; ART="$4"; RUNS="$5"; SEED="$6"; MAXLEN="$7"; MSAN="$8"
 rm -rf "$W/$T" && mkdir -p "$W/$T" "$(dirname "$ART")" || exit 2
 FZ_TARGET="$T" FZ_MKCORPUS="$W/$T" "$BIN" >/dev/null 2>"$W/$T.corpus.log" || { cat "$W/$T.corpus.log" >&2; echo "FZ_CORPUS_FAILED" >&2; exit 2; }
 grep -a FZ_CORPUS "$W/$T.corpus.log" >&2
-FZ_TARGET="$T" exec "$BIN" -runs="$RUNS" -seed="$SEED" -max_len="$MAXLEN" -timeout=20 -rss_limit_mb=4096 -print_final_stats=1 -artifact_prefix="$ART" "$W/$T"
+FZ_TARGET="$T" "$BIN" -runs="$RUNS" -seed="$SEED" -max_len="$MAXLEN" -timeout=20 -rss_limit_mb=4096 -print_final_stats=1 -artifact_prefix="$ART" "$W/$T"
+RC=$?
+[ $RC -ne 0 ] && exit $RC
+if [ -n "$MSAN" ]; then
+	echo "FZ_MSAN_BEGIN target=$T" >&2
+	FZ_TARGET="$T" MSAN_OPTIONS=abort_on_error=1 "$MSAN" -runs=0 -timeout=60 -artifact_prefix="${ART}msan-" "$W/$T" 2>&1 | grep -a "MemorySanitizer\|#[0-9] \|DONE\|written\|FZ_VIOL\|SUMMARY" | sed 's/DONE/MSAN_DONE/' >&2
+	echo "FZ_MSAN_END target=$T" >&2
+fi
+exit 0
